@@ -398,6 +398,21 @@ def equality(eng, l, r, st, negate=False, line=0):
         return
     lsv = l if isinstance(l, SV) else SV(eng.lift(l, st))
     rsv = r if isinstance(r, SV) else SV(eng.lift(r, st))
+    # attrs-generated __eq__ (no source text): same class and all eq-fields equal, as attrs documents
+    for side, other in ((lsv, rsv), (rsv, lsv)):
+        if side.hint is not None and "__attrs_attrs__" in getattr(side.hint, "__dict__", {}) and "__eq__" in side.hint.__dict__:
+            import attr
+
+            if other.hint is not side.hint:
+                if other.hint is not None:
+                    yield st, negate
+                    return
+                raise Unsupported("attrs equality against a value of unknown class")
+            flds = [f.name for f in attr.fields(side.hint) if f.eq]
+            lt = tuple(eng.load_field(st, side.t, n, side.hint) for n in flds)
+            rt = tuple(eng.load_field(st, other.t, n, side.hint) for n in flds)
+            yield from equality(eng, lt, rt, st, negate, line)
+            return
     # user-defined __eq__/__ne__ on hinted objects
     for side, other in ((lsv, rsv), (rsv, lsv)):
         if side.hint is not None and side.hint not in (tuple, list):
